@@ -58,10 +58,29 @@ def world_job(job):
     res = {"seed": seed, "runs": 0, "violations": [], "probes": {}, "faults": {}, "digests": [],
            "keys": set(), "nontrivial_keys": set(), "interleavings": set(), "sim_seconds": 0.0,
            "fault_free": 0, "faulty": 0, "samples": [], "spec_digest": R.digest(spec)}
+    # ambient fault for the GENERATOR: process reuse.  Half of the worlds generate an unrelated decoy request
+    # first in the same interpreter (a build worker does); module-level state must not leak into the real one.
+    decoy_spec = job.get("decoy_spec")
+    if (decoy_spec is not None) or ("spec" not in job and R.stream(seed, "reuse").random() < 0.5):
+        res["decoy_generated"] = 1
+        try:
+            decoy = decoy_spec if decoy_spec is not None else mod.gen_spec(R.stream(seed, "decoy-spec"))
+            decoy_spec = decoy
+            import tempfile
+            import shutil
+            d = tempfile.mkdtemp(prefix="gapic-dsim-decoy-", dir=world.scratch_root())
+            try:
+                world.generate(decoy, d)
+            finally:
+                shutil.rmtree(d, ignore_errors=True)
+            del decoy
+        except Exception:  # noqa  (the decoy's own fate is judged when it is a world of its own)
+            pass
     try:
         w = world.World(spec)
     except world.WorldUnbuildable as e:
-        res["violations"].append({"rule": "world_unbuildable", "msg": str(e)[:2000], "spec": spec, "scenario": None})
+        res["violations"].append({"rule": "world_unbuildable", "msg": str(e)[:2000], "spec": spec, "scenario": None,
+                                  "decoy_spec": decoy_spec})
         return res
     try:
         if "scenarios" in job:
@@ -98,6 +117,7 @@ def world_job(job):
                     v["spec"] = spec
                     v["scenario"] = sc
                     v["history"] = hist
+                    v["decoy_spec"] = decoy_spec
                     res["violations"].append(v)
                 break   # first failing run of a world stops the world
     finally:
@@ -133,6 +153,15 @@ def replay_job(job):
             return {"violations": [{"rule": job["rule"], "msg": "the input was accepted at generation time"}], "digest": None}
         except Exception:  # noqa
             return {"violations": [], "digest": None}
+        finally:
+            shutil.rmtree(d, ignore_errors=True)
+    if job.get("decoy_spec") is not None:
+        import tempfile, shutil
+        d = tempfile.mkdtemp(prefix="gapic-dsim-decoy-", dir=world.scratch_root())
+        try:
+            world.generate(job["decoy_spec"], d)
+        except Exception:  # noqa
+            pass
         finally:
             shutil.rmtree(d, ignore_errors=True)
     try:
@@ -333,6 +362,7 @@ def aggregate(results):
         agg["fault_free"] += pay["fault_free"]
         agg["faulty"] += pay["faulty"]
         agg["world_wall"] += pay.get("wall_s", 0.0)
+        agg["faults"]["generator_process_reuse"] = agg["faults"].get("generator_process_reuse", 0) + pay.get("decoy_generated", 0)
         for k in ("keys", "nontrivial_keys", "interleavings"):
             agg[k] |= pay[k]
         for k in ("probes", "faults"):
@@ -363,7 +393,9 @@ def report_violations(prop_id, mod, seed, args, viols, t0, agg, pre, st=None):
         rule = v["rule"]
         spec, sc = v["spec"], v.get("scenario")
         if not args.no_minimize:
-            spec, sc, info = minimize.minimise(prop_id, mod, spec, sc, rule)
+            spec, sc, info = minimize.minimise(prop_id, mod, spec, sc, rule, decoy=v.get("decoy_spec"))
+            if v.get("decoy_spec") is not None and info.get("needs_decoy") is False:
+                v["decoy_spec"] = None
         else:
             info = {"minimised": False}
         sig = mod.signature(spec, sc, rule) if hasattr(mod, "signature") else rule
@@ -377,6 +409,7 @@ def report_violations(prop_id, mod, seed, args, viols, t0, agg, pre, st=None):
         new += 1
         rp = {"property": prop_id, "rule": rule, "signature": sig, "seed": seed, "world_seed": v.get("world_seed"),
               "message": v.get("msg"), "op": v.get("op"), "spec": spec, "scenario": sc, "minimisation": info,
+              "decoy_spec": v.get("decoy_spec"),
               "history": v.get("history") if info.get("minimised") is False else info.get("history")}
         name = f"{prop_id}-{seed}-{R.digest([spec, sc, rule])[:8]}.json"
         path = os.path.join(VERIF, "out", "replays", name)
@@ -404,7 +437,8 @@ def replay(prop_id, mod, path):
     with open(path) as f:
         rp = json.load(f)
     warm()
-    job = {"prop": prop_id, "spec": rp["spec"], "scenario": rp.get("scenario"), "rule": rp.get("rule", "")}
+    job = {"prop": prop_id, "spec": rp["spec"], "scenario": rp.get("scenario"), "rule": rp.get("rule", ""),
+           "decoy_spec": rp.get("decoy_spec")}
     _, st, pay = runner.run_one(replay_job, job, wall=120)
     if st != "ok":
         print(f"HARNESS-ERROR property={prop_id}: replay {st}: {str(pay)[-2000:]}")
